@@ -639,6 +639,7 @@ func RunC11(r *Run) {
 		stalls := 0
 		w.St.GetFaults = map[string]GetFault{}
 		w.St.Alt = map[string][]byte{}
+		w.St.ErrFlavor = r.Choose("error-flavor", 3)
 		small := len(all) <= 12
 		mode := r.Choose("fault-mode", 4) // 0 none, 1 single fault, 2 few, 3 many
 		nf := 0
